@@ -19,7 +19,7 @@ pub fn property() -> Property {
                 name: "sweep",
                 quick: 20_000,
                 thorough: 2_000_000,
-                single_shard: false,
+                single_shard: false, supplementary: false,
                 run: |cfg| run_part(cfg, gen::raw_pos(80), |r| PosCase { fen: gen::position(r, ClockDomain::Unmake).fen() }, check_sweep),
                 replay: |v| replay_case::<PosCase, _>(v, check_sweep),
             },
@@ -27,7 +27,7 @@ pub fn property() -> Property {
                 name: "lines",
                 quick: 4_000,
                 thorough: 200_000,
-                single_shard: false,
+                single_shard: false, supplementary: false,
                 run: |cfg| {
                     run_part(
                         cfg,
